@@ -32,6 +32,10 @@ func init() {
 			// (deadlines beyond what a 64-bit nanosecond count since 1970 can hold)
 			slow := []cliEv{{K: "start", I: 0}, {K: "tick", Arg: 4}, {K: "tick", Arg: 5}, {K: "tick", Arg: 0}, {K: "tick", Arg: 1}, {K: "resp", I: 0}, {K: "failwrite"}, {K: "failwrite", Arg: 1}, {K: "garbage", Arg: 2}, {K: "garbage", Arg: 4}}
 			cliHistories(c, "C11", cliOpts{MsgSize: []int{2052}}, slow, depth, eps, "Hearly")
+			// a clock that is stepped back: what the collector saw before the step says nothing about transactions
+			// started after it
+			clk := []cliEv{{K: "start", I: 0}, {K: "clockback"}, {K: "tick", Arg: 2}, {K: "tick", Arg: 4}, {K: "tick", Arg: 0}, {K: "tick", Arg: 1}, {K: "resp", I: 0}}
+			cliHistories(c, "C11", cliOpts{MsgSize: []int{24}}, clk, depth, eps, "Hclockback")
 			// a clock that does not start on a round number (deadlines then fall between the ticks of any coarser grid)
 			cliHistories(c, "C11", cliOpts{ClockOffset: 2300001}, slow, depth-1, eps, "Hoffset")
 			cliHistories(c, "C11", cliOpts{ClockOffset: 4999999, RTO: int64(100 * time.Millisecond)}, slow, depth-1, eps, "Hoffset2")
